@@ -1,2 +1,4 @@
 -- Root of the `LdkModel` library: imports every property module.
+import LdkModel.Props.C05
+import LdkModel.Props.C01
 import LdkModel.Props.C08
